@@ -3802,12 +3802,12 @@ class FuncSorted(ValueFunc):
         cmp = (
             args.getFunc("cmp")
             if args.hasArg("cmp")
-            else environment.getBase().get("compare", pos)
+            else environment.getBase().get("compare", pos).asFunc()
         )
         key = (
             args.getFunc("key")
             if args.hasArg("key")
-            else environment.getBase().get("identity", pos)
+            else environment.getBase().get("identity", pos).asFunc()
         )
         result = lst.value[:]
         for i in range(len(result)):
